@@ -16,6 +16,11 @@ pub enum Piece {
     AnyUntilPrompt,
     /// `<idx> | <file>:<line>:<col>  <raw>` with free padding
     Listing { idx: usize, loc: String, raw: String },
+    /// program output shown between here and the next prompt (or the end of the transcript): any number
+    /// of `[stdout] <text>\n` / `[stderr] <text>\n` chunks, in any order and any chunking, possibly mixed
+    /// with informational `==> ` lines; the concatenated payloads per stream must be exactly these texts
+    /// (every character once, in order)
+    Output { out: Vec<u8>, err: Vec<u8> },
     /// a state display, compared by content: `current stack: N` and one `stack I: [a, b]` line per
     /// stack, in any order; an empty stack may be shown or left out; up to the next prompt
     StateDump { cur: usize, stacks: std::collections::BTreeMap<usize, Vec<String>> },
@@ -67,7 +72,87 @@ pub fn walk(t: &[u8], from: usize, pieces: &[Expect]) -> Result<(usize, Vec<bool
             ))
         };
         match &e.piece {
+            Piece::Output { out, err } => {
+                let start = pos;
+                let expected: [&Vec<u8>; 2] = [out, err];
+                let mut used = [0usize; 2];
+                let mut bad: Option<String> = None;
+                let is_boundary = |rest: &[u8]| rest.is_empty() || rest.starts_with(PROMPT) || rest.starts_with(b"[stdout] ") || rest.starts_with(b"[stderr] ") || rest.starts_with(b"==> ");
+                loop {
+                    if pos >= t.len() || t[pos..].starts_with(PROMPT) {
+                        break;
+                    }
+                    if t[pos..].starts_with(b"==> ") {
+                        match line_at(t, pos) {
+                            Some(l) => pos += l.len(),
+                            None => pos = t.len(),
+                        }
+                        continue;
+                    }
+                    let s = if t[pos..].starts_with(b"[stdout] ") {
+                        0
+                    } else if t[pos..].starts_with(b"[stderr] ") {
+                        1
+                    } else {
+                        bad = Some("text that is neither a [stdout]/[stderr] chunk nor a log line".to_string());
+                        break;
+                    };
+                    pos += 9;
+                    // the chunk's payload is the longest prefix of what is still expected on that stream that is
+                    // followed by a line break and a chunk marker, log line, prompt or the end (the payload may
+                    // itself contain line breaks, so the expected text decides where the chunk ends)
+                    let rem = &expected[s][used[s]..];
+                    let avail = t.len() - pos;
+                    let mut k = rem.len().min(avail.saturating_sub(1));
+                    let mut found = None;
+                    loop {
+                        if t[pos..pos + k] == rem[..k] && t.get(pos + k) == Some(&b'\n') && is_boundary(&t[pos + k + 1..]) {
+                            found = Some(k);
+                            break;
+                        }
+                        if k == 0 {
+                            break;
+                        }
+                        k -= 1;
+                    }
+                    match found {
+                        Some(k) => {
+                            used[s] += k;
+                            pos += k + 1;
+                        }
+                        None => {
+                            bad = Some(format!("a {} chunk that does not continue the expected text", if s == 0 { "[stdout]" } else { "[stderr]" }));
+                            break;
+                        }
+                    }
+                }
+                if bad.is_none() && (used[0] != out.len() || used[1] != err.len()) {
+                    bad = Some(format!("only {} of {} stdout bytes and {} of {} stderr bytes were shown", used[0], out.len(), used[1], err.len()));
+                }
+                if let Some(b) = bad {
+                    return Err((
+                        e.clause.to_string(),
+                        format!(
+                            "piece {} ({}): stdout {:?} stderr {:?}, each character once",
+                            k,
+                            e.note,
+                            truncate(&String::from_utf8_lossy(out), 200),
+                            truncate(&String::from_utf8_lossy(err), 200)
+                        ),
+                        format!("{} ; transcript at byte {}: {:?}", b, start, show(t, start)),
+                    ));
+                }
+            }
             Piece::Exact(b) => {
+                if b.as_slice() == PROMPT {
+                    // informational log lines may precede a prompt
+                    while t[pos..].starts_with(b"==> ") {
+                        match line_at(t, pos) {
+                            Some(l) => pos += l.len(),
+                            None => break,
+                        }
+                    }
+                }
                 if !t[pos..].starts_with(b) {
                     return fail(format!("{:?}", truncate(&String::from_utf8_lossy(b), 300)), pos);
                 }
@@ -183,4 +268,15 @@ pub fn walk(t: &[u8], from: usize, pieces: &[Expect]) -> Result<(usize, Vec<bool
         }
     }
     Ok((pos, choices))
+}
+
+/// Skip trailing informational lines; returns the position after them.
+pub fn skip_log_lines(t: &[u8], mut pos: usize) -> usize {
+    while pos < t.len() && t[pos..].starts_with(b"==> ") {
+        match t[pos..].iter().position(|&b| b == b'\n') {
+            Some(e) => pos += e + 1,
+            None => break,
+        }
+    }
+    pos
 }
